@@ -2,10 +2,10 @@ ID = "C01"
 LEVEL = "model_checking"
 MIRSYM = "C01"
 BOUNDS = ("single-message classification for every combination of parser outcomes; prepare_error table; RpcService::call for absent / present handlers of every kind; the blocking-handler "
-          "join-error arm; the WebSocket receive loop (two iterations from any resume point) and per-message task for any first non-whitespace byte; whitespace predicate for all 256 bytes; positional params: arrays of 0..2 elements with any spacing, 1..2 reads (decoder in full: C16)")
+          "join-error arm; the WebSocket receive loop (two iterations from any resume point) and per-message task for any first non-whitespace byte; whitespace predicate for all 256 bytes; positional params: arrays of 0..2 elements with any spacing, 1..2 reads (decoder in full: C16); the response limit handed to RpcService::new on every assembly route; the WebSocket reply decision")
 EXPLANATION = ("Symbolic execution of the rustc MIR of server::handle_rpc_call (single branch), core::server::helpers::prepare_error, middleware::rpc::RpcService::call, "
                "RpcModule::register_blocking_method's closures and transport::ws::background_task: z3 decides the classification tables, that every library-made reply echoes the "
-               "request's own id, that no handler runs for an unbound name, and that no received WebSocket message is dropped or answered twice. The classification does not read the batch setting (native battery under Unlimited / Disabled / Limit(1)); the ParamsSequence reads a handler receives its positional params through never refuse an acceptable element, whatever the spacing.")
+               "request's own id, that no handler runs for an unbound name, and that no received WebSocket message is dropped or answered twice. The classification does not read the batch setting (native battery under Unlimited / Disabled / Limit(1)); the ParamsSequence reads a handler receives its positional params through never refuse an acceptable element, whatever the spacing. Every route builds its RPC service with the one configured response limit, so HTTP and WebSocket answer alike.")
 TRUSTED = ["rustc MIR dump", "z3 / cvc5", "serde_json / serde-derive parsers (uninterpreted outcomes)", "tokio::spawn runs the task it is given"]
 OUTSIDE = ["byte-level JSON scanning (serde_json)", "HTTP / WebSocket framing (hyper / soketto)", "'the connection keeps serving' under task scheduling",
            "HTTP-vs-WS equality beyond 'both call the same handle_rpc_call with the same whitespace rule'"]
